@@ -45,6 +45,9 @@ def scopeJson (r : Node) : Json :=
               ("walk", ids (walkRoot false r)),
               ("walk_sym", ids (walkRoot true r)),
               ("walk_back", ids (walkRootB false r)),
+              ("walk_asts", ids (walkAsts false r)),
+              ("good_asts", Json.bool (goodAsts r)),
+              ("owned_asts", ids (ownedAsts r)),
               ("walk_sym_back", ids (walkRootB true r)),
               ("syms", symsJson (symbols r)),
               ("owned", ids (owned r)),
